@@ -780,7 +780,8 @@ func (ls *LState) isStarted() bool {
 
 func (ls *LState) kill() {
 	ls.Dead = true
-	if ls.ctxCancelFn != nil {
+	// a dead thread releases its context, unless threads it created still live under it
+	if ls.ctxCancelFn != nil && !ls.ctxShared {
 		ls.ctxCancelFn()
 	}
 }
@@ -1417,6 +1418,7 @@ func (ls *LState) NewThread() (*LState, context.CancelFunc) {
 		thread.mainLoop = mainLoopWithContext
 		thread.ctx, f = context.WithCancel(ls.ctx)
 		thread.ctxCancelFn = f
+		ls.ctxShared = true
 	}
 	return thread, f
 }
